@@ -33,5 +33,11 @@ extern int pv_s_ok;                   /* the last sign call succeeded */
 /* import-side monitors (process_* contract stubs) */
 extern unsigned pv_proc_calls;
 
+#ifdef PV_TAPE
+extern unsigned pv_tape_i;
+extern int pv_tape[];
+#define PV_TAPE_N 8
+#endif
+
 extern struct jwt_crypto_ops vf_ops;
 #endif
